@@ -115,12 +115,14 @@ def assumed_facts(reg, pid):
 
 
 def assumed_source_hash(repo, mod, qualname):
-    """hash of the function's AST without its docstring (comments and
-    formatting do not matter)"""
+    """hash of the function's AST without its docstring and with its locals
+    spelt canonically (comments, formatting and the names of local variables
+    do not matter)"""
     import ast
     import hashlib
     from . import source as S
     node, _, _ = S.get_function(repo, mod, qualname)
+    node = S.alpha_normalised(node)
     body = S.strip_docstring(node.body)
     txt = ast.dump(node.args) + "|" + "|".join(ast.dump(b) for b in body) + \
         "|" + "|".join(ast.dump(d) for d in node.decorator_list)
@@ -180,6 +182,21 @@ def stage1(pid, repo, tier, plan, update=False):
         with open(os.path.join(ROOT, "baseline", "assumed_sources.json"),
                   "w") as f:
             json.dump(base, f, indent=0, sort_keys=True)
+    if update:
+        # how the locals of the verified functions are spelt now (see
+        # source.restore_local_names)
+        lp = os.path.join(ROOT, "baseline", "locals.json")
+        try:
+            with open(lp) as f:
+                rec = json.load(f)
+        except (OSError, ValueError):
+            rec = {}
+        for i in infos:
+            if i.get("status") == "under contract" and \
+                    not i.get("renamed_locals"):
+                rec[i["function"]] = i.get("locals_now", [])
+        with open(lp, "w") as f:
+            json.dump(rec, f, indent=0, sort_keys=True)
     used = set()
     for i in infos:
         i["assumed"] = False
